@@ -395,9 +395,30 @@ func runTxn(c *corr.Ctx) error {
 		}
 		return nil
 	}
-	n := c.Scale(300, 8000)
+	// fixed scenarios, executed live on every run: a reader whose read timestamp is 0 / equals the
+	// read watermark must still conflict with a later overwrite (fixes/txn-active-reads.md)
+	for _, d := range staleReaderScenarios() {
+		c.Emit(execTxn(c, d))
+	}
+	n := c.Scale(200, 8000)
 	for i := 0; i < n; i++ {
 		c.Emit(execTxn(c, genTxn(c.Rng, c.Prop)))
 	}
 	return nil
+}
+
+func staleReaderScenarios() []txnDesc {
+	cfg := txnCfg{Detect: true, MaxCount: 64, MaxSize: 1 << 20, VThr: 1024}
+	o := func(k string, id, key int, v string) txnOp {
+		return txnOp{Kind: k, ID: id, Update: true, Key: key, Val: v}
+	}
+	dumps := []txnOp{{Kind: "dump", Key: 0}, {Kind: "dump", Key: 1}, {Kind: "dump", Key: 2}, {Kind: "dump", Key: 3}}
+	a := []txnOp{o("begin", 0, 0, ""), o("set", 0, 0, "v0"), o("commit", 0, 0, ""), o("begin", 0, 0, ""), o("discard", 0, 0, ""),
+		o("begin", 1, 0, ""), o("get", 1, 0, ""), o("begin", 2, 0, ""), o("set", 2, 0, "vC"), o("commit", 2, 0, ""),
+		o("begin", 3, 0, ""), o("discard", 3, 0, ""), o("begin", 3, 0, ""), o("set", 3, 1, "x"), o("commit", 3, 0, ""),
+		o("set", 1, 0, "vB"), o("commit", 1, 0, "")}
+	b := []txnOp{o("begin", 0, 0, ""), o("get", 0, 0, ""), o("begin", 1, 0, ""), o("set", 1, 0, "v1"), o("commit", 1, 0, ""),
+		o("begin", 2, 0, ""), o("set", 2, 1, "x"), o("commit", 2, 0, ""), o("begin", 3, 0, ""), o("set", 3, 2, "y"), o("commit", 3, 0, ""),
+		o("set", 0, 0, "v0"), o("commit", 0, 0, "")}
+	return []txnDesc{{Cfg: cfg, Ops: append(a, dumps...)}, {Cfg: cfg, Ops: append(b, dumps...)}}
 }
